@@ -90,7 +90,12 @@ def run(ctx) -> None:
     subs = [c for c in ast.walk(fcls.node) if isinstance(c, ast.Call) and call_name(c) in RX_CALLS and c.args]
     if not subs:
         # … or in a function of the module that the class's methods call
-        helpers_ = [prog.funcs[q_] for q_ in ctx.cg.reachable([m_.qual for m_ in fcls.methods.values()]) if q_ in prog.funcs and prog.funcs[q_].module is fcls.module and prog.funcs[q_].cls is None]
+        helpers_ = [prog.funcs[q_] for q_ in ctx.cg.reachable([m_.qual for m_ in fcls.methods.values()]) if q_ in prog.funcs and prog.funcs[q_].module is fcls.module and prog.funcs[q_].cls is not fcls]
+        # … or in a private helper class of the module that the filter class names
+        named_ = {n_.id for n_ in ast.walk(fcls.node) if isinstance(n_, ast.Name)}
+        for cq_, ci_ in prog.classes.items():
+            if ci_.module is fcls.module and ci_.name.startswith("_") and ci_.name in named_:
+                helpers_ += [m_ for m_ in ci_.methods.values() if m_ not in helpers_]
         subs = [c for h_ in helpers_ for c in ast.walk(h_.node) if isinstance(c, ast.Call) and call_name(c) in RX_CALLS and c.args]
         subs += [c for st_ in fcls.module.tree.body if isinstance(st_, (ast.Assign, ast.AnnAssign)) for c in ast.walk(st_) if isinstance(c, ast.Call) and call_name(c) in RX_CALLS and c.args]
     pats = []
